@@ -15,13 +15,15 @@ META = {
         "19.h sixty pillars: stem/branch decomposition, Nayin, decade (Xun), void branches",
         "19.i element generate / overcome as inverse pairs, element <-> direction",
         "19.j zodiac sign for all 366 month-day pairs",
+        "19.l eight-character derived signs on all pillar combinations (engine B): foetal origin, foetal breath, own sign (命宫: month number + hour number + sign number = 14 or 26, Five-Tigers stem), body sign (身宫)",
         "19.k 28 mansions (luminary, zone, animal), nine stars (element, direction, dipper), twelve spirits (yellow/black path)",
     ],
     "outside": ["Zone::get_direction and foetus-spirit name strings (generic lookup by name)", "Peng Zu texts, nine-star colours (plain strings)",
-                "28-mansion land / luck tables, foetus tables, eight-character derived signs (own / body sign, foetal origin / breath): not built in this revision"],
+                "28-mansion land / luck tables, foetus-spirit tables: not built in this revision"],
     "assumptions": [
         "AbstractCulture::index_of as a 32-bit computation for |index| < 2^30 (engine B proves the real one is the mathematical mod for every table size); natively the real function runs",
         "stub fmt_empty for std::fmt::format (error payloads)",
+        "19.l engine B object model: axioms A-index, A-pillar (19.h), A-name (T60 + trusted LoopTyme::new), A-format",
         "the first-principles tables in harness/src/c19.rs are the oracle (written from the classical rules quoted there)",
     ],
 }
@@ -40,7 +42,16 @@ def jobs(tier, seed):
         body, _, par = body.partition(":")
         wo = {"19.g/clash-harm": ["a combining pair"], "19.g/six-combine": ["last branch"]}.get(jid, [])
         J.append(Job(jid, "c19::" + body, [int(par)] if par else [], stubs=STUBS, witness_optional=wo, unwind=unwind, est=est, timeout=1500, mem_gb=6 if "pillar" in jid else 4, clause=jid.split("/")[0], bound=bound))
+    J.append(Job("T60/tables", "pillar::t60_tables", [], est=5, clause="19.l", bound="all 60 names, all stem pairs, all branch pairs"))
     return J
+
+def engine_b(tier, seed, scr):
+    from props._b import engine
+    from mir2smt import pillars
+    eng, err = engine(scr, "19.l/B/own-sign", "19.l")
+    if eng is None:
+        return err
+    return [pillars.k_eight_char(eng, k) for k in range(4)]
 
 def describe(j, vals):
     return {"inputs_as_i64": [v if v < (1 << 63) else v - (1 << 64) for v in vals]}
